@@ -114,7 +114,12 @@ def order_worker(item):
     migrated file must still agree on every transaction (rule ORDER is part of the meaning of a first-match file)."""
     seed, count = item
     rnd = random.Random(seed)
-    txns = LD.txns()
+    txns = LD.txns() + [{'description': d_, 'amount': 75.0, 'date': datetime.date(2025, 1, 15)}
+                        for d_ in ('ALFA ALFA STORE', 'ZULU ZULU INST XFER', 'alfa store', 'BETA BETA', 'STORE ALFA')]
+    # several SPELLINGS of one merchant: neighbouring rows that agree in everything but the pattern.  Each row is a rule of its
+    # own - its groups, back-references, anchors and inline flags are its own
+    SPELL = ['(ALFA|BETA) STORE', '^(\\w+) \\1 STORE', '^(\\w+) \\1 INST', 'STORE$', '(?i)alfa store', '(?P<n>ALFA) ALFA', '(?P<n>BETA) BETA',
+             'ALFA|ZULU', '^ALFA', 'BETA\\.STORE$', '(ZULU) \\1', 'ST(OR)E A']
     tmpdir = tempfile.mkdtemp(prefix='c14o_', dir='/dev/shm' if os.path.isdir('/dev/shm') else None)
     path = os.path.join(tmpdir, 'merchant_categories.csv')
     fails, n = [], 0
@@ -125,6 +130,11 @@ def order_worker(item):
                 rules.append({'pattern': LD.PATTERNS[rnd.choice(LD.CORE_PATTERNS + [1, 5, 6])], 'mods_text': LD.MODS[rnd.choice(LD.CORE_MODS)][0],
                               'merchant': rnd.choice(['Shop A', 'Shop B']), 'cat': 'Cat %d' % i, 'sub': rnd.choice(['', 'Sub %d' % i]),
                               'tags': rnd.choice([[], ['t%d' % i]]), 'relative': False})
+            if rnd.random() < 0.5:
+                k0 = rnd.randrange(len(rules))
+                base = dict(rules[k0], mods_text=rnd.choice(['', '', '[amount>50]']))
+                block = [dict(base, pattern=p_) for p_ in rnd.sample(SPELL, rnd.choice([2, 3]))]
+                rules[k0:k0 + 1] = block
             text = csv_text(rules)
             with open(path, 'w', newline='') as f:
                 f.write(text)
